@@ -123,6 +123,22 @@ type State struct {
 	defers *deferList
 	writes *writeList // possible writes to fields seen so far on the path
 	cells  *cellList  // last value stored to local variable cells on the path
+	preds  *predList  // block entered from which predecessor (latest first)
+}
+
+type predList struct {
+	fr       *Frame
+	blk, from int
+	next     *predList
+}
+
+func (s State) predOf(fr *Frame, blk int) (int, bool) {
+	for p := s.preds; p != nil; p = p.next {
+		if p.fr == fr && p.blk == blk {
+			return p.from, true
+		}
+	}
+	return 0, false
 }
 
 type cellList struct {
@@ -416,6 +432,7 @@ func (t *Tracer) follow(fr *Frame, from, to *ssa.BasicBlock, st State, k func(St
 		}
 	}
 	st.edges = &edgeList{fr: fr, from: from.Index, to: to.Index, next: st.edges}
+	st.preds = &predList{fr: fr, blk: to.Index, from: from.Index, next: st.preds}
 	t.execBlock(fr, to, 0, st, k)
 }
 
@@ -586,9 +603,21 @@ func (t *Tracer) Resolve(fr *Frame, v ssa.Value) Ref {
 		case *ssa.MakeInterface:
 			v = x.X
 			continue
+		case *ssa.Phi:
+			// path-sensitive: the edge the current path came in over
+			if from, ok := t.cur.predOf(fr, x.Block().Index); ok {
+				for i, pb := range x.Block().Preds {
+					if pb.Index == from && i < len(x.Edges) {
+						v = x.Edges[i]
+						goto next
+					}
+				}
+			}
+			return Ref{fr, v}
 		default:
 			return Ref{fr, v}
 		}
+	next:
 	}
 	return Ref{fr, v}
 }
